@@ -55,7 +55,7 @@ def parseStmt : Nat → List String → Option (Stmt × List String)
     | some k, some r, some (b, rest') =>
       let a := kindAttrs k
       -- kinds whose native calls the body exactly once whatever `reps` says
-      let r' := if k % 13 == 1 then r else 1
+      let r' := if k % nKinds == 1 then r else 1
       some (Stmt.native a.1 a.2.1 a.2.2 r' b, rest')
     | _, _, _ => none
   | fuel + 1, "Q" :: rest =>
